@@ -256,7 +256,12 @@ def check_sorted_results_unsorted(ctx, fi, rule='R-PERM/unsort-before-return'):
                 and v.value.id == d.name and isinstance(
                     v.slice, ast.Name) and any(
                         p.name == v.slice.id for p in perms):
-            sort_nodes.add(d.node)
+            # ... and what is sorted is a request: the sorted copy goes on
+            # to select something (a subscript, a reader).  An array that
+            # is put in order and merely handed back (with its companions
+            # permuted alike) is data, not a request.
+            if any(un.kind != 'return' for un, _ in rd.uses_of(d)):
+                sort_nodes.add(d.node)
     if not sort_nodes:
         return 0
     # the permutation itself, read after the sorting, is applied the other
